@@ -9,7 +9,7 @@ THEOREMS = [
     'FlexVerif.RuleSet.specAuto_tags', 'FlexVerif.RuleSet.specAuto_first',
     'FlexVerif.closed_sound', 'FlexVerif.validate_sound', 'FlexVerif.validate_first_rule',
     'FlexVerif.specCands_selects', 'FlexVerif.specCands_nil', 'FlexVerif.specCands_ne_nil',
-    'FlexVerif.tableCands_selects',
+    'FlexVerif.tableCands_selects', 'FlexVerif.absTok_eq_tableCands_head', 'FlexVerif.bufToken_selects',
 ]
 
 
